@@ -57,7 +57,10 @@ def cacheGeometry (param : Option (Nat × Nat)) (defaultBytes bsBits cb : Nat) :
     if ¬ (b ≥ bsBits ∧ b ≤ cb) then .panic "info.rs:cache_geometry:debug_assert" else
     if ¬ (s / 2^b ≥ 2) then .panic "info.rs:cache_geometry:assert" else
     .ok (b, s / 2^b)
-  | none => .ok (12, max (defaultBytes / 2^12) 2)
+  | none =>
+    -- a slice can't be bigger than one cluster
+    let bits := min 12 cb
+    .ok (bits, max (defaultBytes / 2^bits) 2)
 
 /-- `Qcow2Info::new(h, p)` in the dev profile. -/
 def Info.new (h : HdrGeo) (p : Params) : Outcome Info := do
